@@ -28,6 +28,10 @@ PROP = {
         "GunYu.Props.C03.listpack_roundtrip",
         "GunYu.Props.C03.intset_roundtrip",
         "GunYu.Props.C03.expand_roundtrip",
+        "GunYu.Props.C03.expand_roundtrip_frame",
+        "GunYu.Props.C03.next_key_entry",
+        "GunYu.Props.C03.expand_path_final",
+        "GunYu.Props.C03.fanOut_keeps_order",
         "GunYu.Props.C03.raw_is_encode",
         "GunYu.Props.C03.chunked_roundtrip",
         "GunYu.Props.C03.hash_unsplit_raw_is_encode",
@@ -63,6 +67,15 @@ PROP = {
             "black-listed DBs are absent (independent prefix + bitwise HASH_SLOT decision); monitor = target double's interpreter reconstructs the keyspace and compares with the dataset (type, "
             "content incl. order/scores/fields/stream entries+ids+groups+PEL, TTL = expireAt-now or expired-at-once, DB "
             "mapping, RESTORE payload = type+serialization+0x0006+CRC64 by the independent CRC). "
+            "Clock: the bubble starts the replay at the odd instant 946684923457 ms; in half of the cases (one lane) every request "
+            "lets 1 ms of virtual time pass, the model computes each entry's clock from the request count, and the double "
+            "judges the ABSOLUTE expiry each PEXPIRE/RESTORE establishes (target clock at the entry's first request + ttl) "
+            "against the dataset's. The double refuses RESTORE payloads of a type newer than the target version with "
+            "`Bad data format` (fallback to expansion with probe/DEL/PEXPIRE is in the model). float64 arguments are rendered with "
+            "the client's real proto.Writer and must parse back to the same double. Also generated: elements of ~16 KiB (1/8 of "
+            "files) and one of ~2 MiB per run (listpack back-length steps), module values (type 7) and module aux data with both "
+            "policies (expected failures are checked as such), the same key name in several source DBs, the empty key, "
+            "IDLETIME/FREQ expectations taken from the dataset. "
             "distinct_nontrivial = (kind, value-shape) classes seen",
     "trusted": [
         "RDB on-disk encodings as transcribed in Model/Rdb/{Str,Ziplist,Listpack,Stream,Enc}.lean (encoders = specification: "
@@ -77,12 +90,20 @@ PROP = {
     "assumptions": [
         "decoder/expansion/replay models are hand-written and tied by correspondence (not regenerated); CRC64 table and RDB "
         "constants are regenerated from the Go source each run",
-        "models are of the REPAIRED behaviour for D8, D9, D10, D11 and N1 (fix: commits in /repo, witnesses in corpus/C03)",
-        "fanOut_same_key needs a non-empty key: entries with the EMPTY key are distributed round-robin by sendRdb, so chunks of "
-        "a split hash stored under the key \"\" could reach different workers when parallel > 1 (not generated; noted by C04)",
+        "models are of the REPAIRED behaviour for D8, D9, D10, D11, N1 (own fix: commits) and for the C04/C20 fixes they "
+        "depend on (Loader.End, listpack invalid encoding = error, Bad-data-format fallback keeps policy and expiry, empty "
+        "key routed by hash); witnesses in corpus/C03",
         "a worker that hits an error cancels the sync: the model does not describe the requests other workers issue after that",
         "the filter DECISION functions (trie, range list) are C10's subject; here their effect on the replay (SELECT order, "
         "absence of filtered keys) is tied with the decision given as prefix/any-range membership",
+        "a key replayed with TTL 1 ms (already past its expiry) is taken to be gone before the next entry touches it "
+        "(logical clock of the target double and of the model's existence table); on a real server this is a 1 ms race",
+        "fixed in the harness, absent from the model: ReplaceHashTag=false, KeyExistsLog=false, standalone target "
+        "(cluster targets: SELECT is a no-op, RESTORE through the cluster client), NewRedisConn (auth, initial DB), the PING "
+        "rdbReplay sends after 3 s of filtered entries",
+        "RDB types 22-25 (hashes with field TTL, Redis 7.4/8.x) are unknown to NewParser: a snapshot containing one ends the "
+        "sync with an error; they are outside the encodings the property enumerates",
+        "which value types a target version can RESTORE (double: 4.x <= 14, 5/6 <= 15, 7.x <= 21, 8.x all) is a transcription",
     ],
     "partial": [
         "stream_roundtrip_partial: for streams the theorem covers the ENTRIES (every listpack node -> one XADD per live entry "
@@ -95,6 +116,13 @@ PROP = {
         "(header_roundtrip, footer_roundtrip; the opcodes before a key are covered inside chunked_roundtrip's next_at_key) are not "
         "yet composed into ONE theorem over parseRdb(rdbFile f) + fanOut for a whole dataset (AUX/SELECTDB/RESIZEDB/slot-info/"
         "function items between keys, multi-DB target state); that composition is covered by correspondence and the monitor",
+        "fanout_parallel_partial: fanOut_keeps_order + fanOut_same_key give per-worker order and same-key routing; that the "
+        "final keyspace does not depend on `parallel` (entries of different keys commute) is not proved, only exercised "
+        "(parallel 1-4 against one keyspace monitor)",
+        "existing_key_partial: expand_path / expand_path_final / expand_roundtrip_frame are for a key that does not exist on "
+        "the target; the probe+DEL branch for an existing key under `replace` is in the model and the correspondence "
+        "(pre-populated keys) but its theorem belongs to C20; raw_is_encode has no counterpart for streams and modules "
+        "(their RESTORE payload is tied by correspondence + the independent CRC only)",
         "zset_v1_scores_partial: RDB_TYPE_ZSET (type 3, Redis < 4.0) ASCII scores are modelled for integers below 2^53, inf, nan",
         "zipmap_partial: type 9 (Redis < 2.6) modelled for < 254 items of < 253 bytes",
         "listpack_65535_partial: a listpack whose element count field is 65535 (unknown) is read as a count by the code; "
